@@ -327,6 +327,29 @@ theorem heap_add_copy_then_histories (h : Heap) (d m : Nat) (hg : CGood h d) (hm
     obs (ces.foldl (fun acc e => e.run acc d) (cyAddConstraintFromModel h d m true remap m' lab).1) m = obs h m :=
   ⟨(cyAdd_copy_separate hg hm hdis remap m' lab).1, cyAdd_copy_then_histories hg hm hdis remap m' lab es ces⟩
 
+/-- **`set_objective(model)` end to end** on any well-formed CQM and any (array-backed) model sharing no cell with it (`MSep`): the call
+    is two in-place edits of the CQM (variables added, objective cell overwritten with the model's contents); the model reads as before, the
+    pair stays separate; afterwards ANY history of in-place edits of the model leaves the CQM reading the same and ANY history of in-place
+    edits of the CQM leaves the model reading the same -/
+theorem heap_set_objective_then_histories (h : Heap) (d m : Nat) (s : MSep h d m) (remap : List Rat → List Rat) (m' : Merge)
+    (es : List Edit) (ces : List CEdit) :
+    MSep (setObjective h d m false remap m') d m ∧ obs (setObjective h d m false remap m') m = obs h m ∧
+    cobs (es.foldl (fun acc e => e.run acc m) (setObjective h d m false remap m')) d = cobs (setObjective h d m false remap m') d ∧
+    obs (ces.foldl (fun acc e => e.run acc d) (setObjective h d m false remap m')) m = obs h m :=
+  setObjective_then_histories s remap m' es ces
+
+/-- **`add_discrete(model | comparison, copy=True, check_overlaps=…)` end to end**: whatever `check_overlaps` is, the caller's model reads as
+    before the call (this is what seeded change C19-6 breaks), the pair stays separate, and any later history of in-place edits on either side
+    is invisible on the other -/
+theorem heap_add_discrete_then_histories (h : Heap) (d m : Nat) (s : MSep h d m) (co : Bool) (remap mark : List Rat → List Rat) (m' : Merge)
+    (lab : List Nat → List Nat) (es : List Edit) (ces : List CEdit) :
+    MSep (addDiscreteFromComparison h d m true co remap mark m' lab).1 d m ∧
+    obs (addDiscreteFromComparison h d m true co remap mark m' lab).1 m = obs h m ∧
+    cobs (es.foldl (fun acc e => e.run acc m) (addDiscreteFromComparison h d m true co remap mark m' lab).1) d =
+      cobs (addDiscreteFromComparison h d m true co remap mark m' lab).1 d ∧
+    obs (ces.foldl (fun acc e => e.run acc d) (addDiscreteFromComparison h d m true co remap mark m' lab).1) m = obs h m :=
+  addDiscrete_then_histories s co remap mark m' lab es ces
+
 /-- expression views hold no contents of their own: `cqm.objective` evaluates `&parent.cppcqm.objective` at every access, a
     `ConstraintView` dereferences its weak pointer — which is valid exactly while the constraint is in the parent's vector — so
     whatever the parent's cells hold after any edit is what the view reads, and a write through the view is a write of the parent's cell -/
@@ -449,5 +472,19 @@ example : (cqmDeepcopy hq0 7).2 = 13 := rfl
 example : cobs (cqmDeepcopy hq0 7).1 13 = ([4], [[6]], [7], [100]) := by decide +kernel
 example : cobs ((CEdit.constraint 0 (fun _ => [9])).run (cqmDeepcopy hq0 7).1 13) 7 = ([4], [[6]], [7], [100]) := by decide +kernel
 example : cobs ((CEdit.constraint 0 (fun _ => [9])).run (cqmDeepcopy hq0 7).1 13) 13 = ([4], [[9]], [7], [100]) := by decide +kernel
+
+/-- the CQM of `hq0` next to a BQM at cells 0–2 -/
+def hq1cell : Nat → Cell
+  | 0 => .coeffs [1, 2] | 1 => .labels [7, 8] | 2 => .cy 0 1 | a => hq0cell a
+def hq1 : Heap := { cell := hq1cell, next := 9 }
+
+example : MSep hq1 7 2 :=
+  ⟨⟨4, 6, 5, 3, [8], ⟨rfl, rfl, by decide, by decide, by decide, by decide, by decide, by decide⟩, by decide⟩,
+   ⟨0, 1, rfl, by decide, by decide, by decide, by decide, by decide, by decide, by decide, by decide, by decide⟩,
+   by decide, by decide, by decide⟩
+example : obs (addDiscreteFromComparison hq1 7 2 true false id id ⟨fun a b => a ++ b, fun a b => a ++ b⟩ id).1 2 = ([1, 2], [7, 8]) := by
+  decide +kernel
+example : obs (addDiscreteFromComparison hq1 7 2 false true id id ⟨fun a b => a ++ b, fun a b => a ++ b⟩ id).1 2 = ([], []) := by
+  decide +kernel
 
 end C19
